@@ -415,6 +415,83 @@ def check_wf(obj):
     return errs
 
 
+def numpy_typed_args_unit(ctx):
+    """Objects built with NumPy-typed values of the documented argument types (np.float64 is a python float; boolean index arrays are
+    documented for Partial): every method under eqx.filter_jit must return what the eager call returns.  NumPy scalars / boolean masks
+    stored as pytree leaves become tracers under jit (defects D12-D14: TracerBoolConversionError / NonConcreteBooleanIndexError)."""
+    s = _setup()
+    jnp, jr, eqx, jax = s["jnp"], s["jr"], s["eqx"], s["jax"]
+    import warnings
+
+    from flowjax import bijections as B
+    from flowjax import distributions as D
+    from flowjax import flows as F
+    from flowjax.bisection_search import AutoregressiveBisectionInverter
+
+    warnings.filterwarnings("ignore")
+    u = ctx.unit("numpy-typed-arguments", "objects constructed with np.float64 / np.int64 scalars and boolean index arrays where the documentation allows a "
+                                          "float / int / bool array: each method eagerly and under eqx.filter_jit (same values, no tracer error)")
+    k = jr.PRNGKey(int(ctx.rng.integers(0, 2**31 - 1)))
+    x3 = jnp.asarray(ctx.rng.normal(0, 1.5, 3))
+    x2 = jnp.asarray(ctx.rng.normal(0, 0.3, 2))
+    BM = ("transform", "inverse", "transform_and_log_det", "inverse_and_log_det")
+    mask_j = jnp.array([True, False, True])
+    mask_n = np.array([False, True, True])
+    mask_2d = jnp.array([[True, False, True], [False, False, True]])
+    cases = [
+        ("Planar(negative_slope=np.float64(0.3))", lambda: B.Planar(k, dim=3, negative_slope=np.float64(0.3)), BM, x3),
+        ("LeakyTanh(np.float64(1.5))", lambda: B.LeakyTanh(np.float64(1.5), (3,)), BM, x3),
+        ("Partial(jax bool mask)", lambda: B.Partial(B.Affine(jnp.ones(2), jnp.full(2, 2.0)), mask_j, (3,)), BM, x3),
+        ("Partial(numpy bool mask)", lambda: B.Partial(B.Affine(jnp.ones(2), jnp.full(2, 2.0)), mask_n, (3,)), BM, x3),
+        ("Partial(2-d bool mask)", lambda: B.Partial(B.Exp((3,)), mask_2d, (2, 3)), BM, jnp.asarray(ctx.rng.normal(0, 1, (2, 3)))),
+        ("BlockAutoregressiveNetwork(inverter tol=np.float64(1e-8))", lambda: B.BlockAutoregressiveNetwork(
+            k, dim=2, depth=1, block_dim=2, inverter=AutoregressiveBisectionInverter(tol=np.float64(1e-8))), BM, x2),
+        ("BlockAutoregressiveNetwork(inverter max_iter=np.int64(150))", lambda: B.BlockAutoregressiveNetwork(
+            k, dim=2, depth=1, block_dim=2, inverter=AutoregressiveBisectionInverter(max_iter=np.int64(150))), BM, x2),
+        ("planar_flow(negative_slope=np.float64(0.5))", lambda: F.planar_flow(k, base_dist=D.StandardNormal((3,)), flow_layers=2, negative_slope=np.float64(0.5)), ("log_prob",), x3),
+        ("triangular_spline_flow(tanh_max_val=np.float64(3.0))", lambda: F.triangular_spline_flow(
+            k, base_dist=D.StandardNormal((3,)), flow_layers=1, knots=3, tanh_max_val=np.float64(3.0)), ("log_prob",), x3),
+        ("block_neural_autoregressive_flow(inverter tol=np.float64)", lambda: F.block_neural_autoregressive_flow(
+            k, base_dist=D.StandardNormal((2,)), flow_layers=1, nn_block_dim=2, invert=True, inverter=AutoregressiveBisectionInverter(tol=np.float64(1e-8))), ("sample",), None),
+    ]
+    for name, mk, methods, x in cases:
+        try:
+            obj = mk()
+        except Exception as e:  # noqa: BLE001
+            ctx.violation(sig=f"numpy-args:{name.split('(')[0]}:construct", what=f"{name} could not be constructed: {type(e).__name__}: {str(e)[:120]}", case={"kind": "numpy-args", "name": name},
+                          found_input=True, unit=u.name, broken="numpy-typed-arguments (oracle)")
+            continue
+        tol = 1e-6 if "inverter" in name else 1e-9  # numerical inversion: the search tolerance, not rounding, bounds the difference
+        for m in methods:
+            u.count((name, m), nontrivial=True, tag=name.split("(")[0])
+            call_ = (lambda o, a, m=m: getattr(o, m)(k)) if m == "sample" else (lambda o, a, m=m: getattr(o, m)(a))
+            arg = jnp.zeros(()) if x is None else x
+            try:
+                eager = call_(obj, arg)
+            except NotImplementedError:
+                continue
+            except Exception as e:  # noqa: BLE001
+                eager = e
+            try:
+                jitted = eqx.filter_jit(call_)(obj, arg)
+            except Exception as e:  # noqa: BLE001
+                jitted = e
+            err = None
+            if isinstance(eager, Exception) and not isinstance(jitted, Exception):
+                err = f"eager call raised {type(eager).__name__} but the jitted call returned"
+            elif isinstance(eager, Exception):
+                err = f"raises {type(eager).__name__} eagerly and {type(jitted).__name__} under jit although the argument is of the documented type"
+            elif isinstance(jitted, Exception):
+                err = f"under eqx.filter_jit raised {type(jitted).__name__}: {str(jitted)[:100]!r}; the eager call returned {[a.ravel()[:3].tolist() for a in flat(eager)[:2]]}"
+            elif cmp(eager, jitted, tol):
+                err = f"jit result differs from eager: {cmp(eager, jitted, tol)}"
+            if err:
+                ctx.violation(sig=f"numpy-args:{name.split('(')[0]}.{m}", what=f"{name}.{m}: {err}", case={"kind": "numpy-args", "name": name, "method": m},
+                              found_input=True, unit=u.name, expected="same result as the eager call (no tracer error)", observed=err,
+                              broken="mode transparency (jit) for NumPy-typed documented arguments")
+        jax.clear_caches()
+
+
 # ======================================================================================================
 def run(ctx):
     s = _setup()
@@ -490,6 +567,7 @@ def run(ctx):
                 ctx.notes.append(f"tree-algebra: {name}: serialiser could not handle the object ({type(e).__name__}: {str(e)[:100]})")
             if len(u.hashes) % 9 == 1:
                 ctx.sample({"case": name, "seed": seed, "methods": methods_of(entry[1], entry[3]), "modes": ["eager", "jit", "vmap", "flatten", "serialise"], "errors": errs})
+    numpy_typed_args_unit(ctx)
     ctx.assumptions += [
         "the eager result is the reference; its correctness is the subject of other properties",
         "jit / vmap transparency, purity and freedom from hidden state are decided by sampled correspondence only (PARTIAL)",
@@ -517,5 +595,13 @@ def replay(ctx, rep):
         errs, info = run_case(c["name"], T[c["name"]], c["seed"], modes=("serialise", "flatten"))
         print(errs)
         return not errs
+    if c.get("kind") == "numpy-args":
+        n0 = len(ctx.violations)
+        numpy_typed_args_unit(ctx)
+        want = f"numpy-args:{c['name'].split('(')[0]}" + (f".{c['method']}" if c.get("method") else ":construct")
+        hits = [v for v in ctx.violations[n0:] if v["sig"] == want and v["what"].startswith(c["name"])]
+        for v in hits:
+            print("still failing:", v.get("what"))
+        return not hits
     print("obligation replay: rebuild and re-check", c)
     return False
